@@ -169,6 +169,16 @@ CLAIMED = {
              "C06-use-rename-clause (renamed USE association) is shown by its witness and kept out of the main world",
         ref="DESIGN.md section 5 C06",
     ),
+    "C07": dict(
+        text="(S, symbolic) Scope.check_definitions / check_use traced by CrossHair with free symbolic line numbers: 'procedure before "
+             "CONTAINS' and 'USE after IMPLICIT' are reported exactly when the line order says so, with severity and 0-based line. (D) a valid "
+             "two-module base program (incl. the constructor-overload idiom, deferred bindings, intrinsic modules) publishes no error; 34 seeded "
+             "variants covering the 15 documented defect classes at several positions x 0..3 blank lines above: the real server publishes the "
+             "class's message with its severity on the offending line and no error of another class.",
+        note="one defect at a time in one base program; variant / offset indices are solver-forked, each run concrete; C04/C13 assert "
+             "'no error diagnostic' on all their generated valid programs",
+        ref="DESIGN.md section 5 C07",
+    ),
 }
 
 NOT_APPLICABLE = {
